@@ -1,6 +1,7 @@
 package exec
 
 import (
+	"bytes"
 	"encoding/binary"
 	"fmt"
 	"runtime"
@@ -289,6 +290,24 @@ func (s *State) Sweep(name string, stride uint64) V {
 					}
 				})
 			}
+		case "headerplausible": // P x count x type x every length up to 255 words: the headers real packets have
+			n = 2 * 32 * 256 * 256
+			fails = parallel(n, func(lo, hi uint64, fail func(string)) {
+				var b [4]byte
+				for x := lo; x < hi; x++ {
+					b[0] = 0x80 | byte(x>>21&1)<<5 | byte(x>>16&31)
+					b[1] = byte(x >> 8)
+					b[2], b[3] = 0, byte(x)
+					var h rtcp.Header
+					if err := h.Unmarshal(b[:]); err != nil || h.Padding != (b[0]&0x20 != 0) || h.Count != b[0]&31 || uint8(h.Type) != b[1] || h.Length != uint16(b[3]) {
+						fail(fmt.Sprintf("decode %x", b))
+						continue
+					}
+					if o, err := h.Marshal(); err != nil || !bytes.Equal(o, b[:]) {
+						fail(fmt.Sprintf("encode %x", b))
+					}
+				}
+			})
 		case "nackequiv32": // PacketList(id, bm) = PacketList(0, bm) + id (mod 2^16), all 2^32 pairs
 			n = 1 << 32
 			fails = parallel(n, func(lo, hi uint64, fail func(string)) {
